@@ -1,7 +1,7 @@
 (** * [connect_edges.rs]: selection and ordering of result events, iteration order around
     vertices, contour walking, hole/parent determination. *)
 From Coq Require Import Bool List ZArith NArith PArith Arith.
-From GB Require Import Num Event Cmp Heap Outcome.
+From GB Require Import Prim Num Event Cmp Heap Outcome.
 Import ListNotations.
 Set Implicit Arguments.
 
@@ -28,14 +28,24 @@ Fixpoint bubble_pass (st : store) (x : eid) (rest : list eid) : list eid * bool 
       else let '(l, sw) := bubble_pass st y rest' in (x :: l, sw)
   end.
 
+(** (the fuel is matched first although it is consulted last: the Paramcoq translation wants
+    the structural argument on top; the two orders are equivalent) *)
 Fixpoint bubble_sort (fuel : nat) (st : store) (l : list eid) : outcome (list eid) :=
-  match l with
-  | [] => Ok []
-  | x :: rest =>
-      let '(l', swapped) := bubble_pass st x rest in
-      if swapped then
-        match fuel with O => OutOfFuel | S f => bubble_sort f st l' end
-      else Ok l'
+  match fuel with
+  | O =>
+      match l with
+      | [] => Ok []
+      | x :: rest =>
+          let '(l', swapped) := bubble_pass st x rest in
+          if swapped then OutOfFuel else Ok l'
+      end
+  | S f =>
+      match l with
+      | [] => Ok []
+      | x :: rest =>
+          let '(l', swapped) := bubble_pass st x rest in
+          if swapped then bubble_sort f st l' else Ok l'
+      end
   end.
 
 Fixpoint set_positions (st : store) (l : list eid) (pos : Z) : store :=
@@ -87,27 +97,28 @@ Definition group_entries (r_from nr nl : nat) : list (nat * nat) :=
   let has_r := Nat.ltb 0 nr in
   let has_l := Nat.ltb 0 nl in
   (if has_r then
-     let r_upto := r_upto_excl - 1 in
-     map (fun j => (j, j + 1)) (seq r_from (r_upto - r_from))
-     ++ [(r_upto, if has_l then l_upto_excl - 1 else r_from)]
+     let r_upto := psub r_upto_excl 1 in
+     map (fun j => (j, j + 1)) (seq r_from (psub r_upto r_from))
+     ++ [(r_upto, if has_l then psub l_upto_excl 1 else r_from)]
    else [])
   ++
   (if has_l then
-     let l_upto := l_upto_excl - 1 in
-     map (fun j => (j, j - 1)) (seq (l_from + 1) (l_upto - l_from))
+     let l_upto := psub l_upto_excl 1 in
+     map (fun j => (j, psub j 1)) (seq (l_from + 1) (psub l_upto l_from))
      ++ [(l_from, if has_r then r_from else l_upto)]
    else []).
 
 Fixpoint iteration_groups (fuel : nat) (st : store) (data : list eid) (i : nat)
   : outcome (list (nat * nat)) :=
-  match data with
-  | [] => Ok []
-  | x_ref :: _ =>
-      match fuel with
-      | O => OutOfFuel
-      | S f =>
-          let nr := span_len (fun e => ident st x_ref e && negb (e_left (getE st e))) data in
-          let data1 := skipn nr data in
+  match fuel with
+  | O => match data with [] => Ok [] | _ :: _ => OutOfFuel end
+  | S f =>
+      match data with
+      | [] => Ok []
+      | x_ref :: data_tl =>
+          let data0 := x_ref :: data_tl in
+          let nr := span_len (fun e => ident st x_ref e && negb (e_left (getE st e))) data0 in
+          let data1 := skipn nr data0 in
           let nl := span_len (fun e => ident st x_ref e) data1 in
           let lrun := firstn nl data1 in
           if c_debug cfg && negb (forallb (fun e => e_left (getE st e)) lrun)
